@@ -34,3 +34,13 @@ package bytetree
 //@ func (*Tree).Length
 //@   pureheap
 //@   ensures val: result == bt.length
+
+// C03: the walk over the memstore tree visits every node: whatever happens to a node's own row (already removed under
+// this ctx, removed now, kept), each completed iteration enqueues all of that node's children - a removed node's subtree
+// still holds other keys' rows.
+//@ func (*Tree).Walk
+//@   modifies *
+//@   loop 0 backedge assert children_enqueued: len(nodes) == len(head(nodes)) - 1 + len(n.edges)
+//@   loop 1 modifies nodes[0:cap(nodes)]
+//@   loop 1 invariant backing: (obj(nodes) == obj(entry(nodes)) && off(nodes) == off(entry(nodes)) && cap(nodes) == cap(entry(nodes))) || freshInLoop(nodes)
+//@   loop 1 invariant grows: len(nodes) == len(entry(nodes)) + $i && 0 <= $i && $i <= len(n.edges)
